@@ -188,8 +188,9 @@ Definition chunk_ok (tags : list str) (c : chunk) : bool :=
 Definition not_html (t : token) : Prop :=
   str_eqb (ttype t) s_html_block = false /\ str_eqb (ttype t) s_html_inline = false.
 Definition ok_tok (tags : list str) (t : token) : Prop := In (ttag t) tags /\ not_html t.
+(* children are rendered for tokens of type inline only *)
 Definition ok_top (tags : list str) (t : token) : Prop :=
-  ok_tok tags t /\ forall ch, tchildren t = Some ch -> Forall (ok_tok tags) ch.
+  ok_tok tags t /\ (str_eqb (ttype t) s_inline = true -> forall ch, tchildren t = Some ch -> Forall (ok_tok tags) ch).
 
 Lemma fixed_ok tags s : mem_str s fixed_lits = true -> chunk_ok tags (CLit s) = true.
 Proof. intros H. cbn [chunk_ok]. rewrite H. reflexivity. Qed.
@@ -276,14 +277,14 @@ Proof.
   induction l as [|t rest IH]; intros p cs l' Hh Hf H; cbn [render_list] in H.
   - inv_ok H. reflexivity.
   - inversion Hf as [|? ? [Ht Hch] Hr]; subst.
-    destruct (str_eqb (ttype t) s_inline).
+    destruct (str_eqb (ttype t) s_inline) eqn:EI.
     + destruct (tchildren t) as [[|x ch]|] eqn:EC.
       * cbn [bind] in H. destruct (render_list o (Some t) rest) as [[c2 r2]|e|] eqn:R2; cbn in H; try discriminate.
         inv_ok H. cbn [app]. eapply IH; eassumption.
       * destruct (render_inline_list o None (x :: ch)) as [[c1 ch1]|e|] eqn:R1; cbn in H; try discriminate.
         destruct (render_list o (Some (set_children t (Some ch1))) rest) as [[c2 r2]|e|] eqn:R2; cbn in H; try discriminate.
         inv_ok H. rewrite forallb_app.
-        rewrite (render_inline_list_ok tags o (x :: ch) None c1 ch1 Hh (Hch _ eq_refl) R1).
+        rewrite (render_inline_list_ok tags o (x :: ch) None c1 ch1 Hh (Hch eq_refl _ eq_refl) R1).
         rewrite (IH _ c2 r2 Hh Hr R2). reflexivity.
       * cbn [bind] in H. destruct (render_list o (Some t) rest) as [[c2 r2]|e|] eqn:R2; cbn in H; try discriminate.
         inv_ok H. cbn [app]. eapply IH; eassumption.
